@@ -10,6 +10,12 @@ Relation
        haplotypes, or all V lines before the H lines), haplotypes mix REF and ALT alleles, variant IDs are not in
        file order, PGEN records are not in position order and VCF records share positions; families of cases use
        every haplotype of one data set as the target in turn.
+       Haplotypes WITHOUT V lines (dosage 2 for everybody, so every R that involves one is nan) come first, in the
+       middle and last in the .hap file, as the target and as a listed item, in both output modes (stream "no-vlines":
+       families over every target of one data set); a "partition" stream makes the number of distinct (variant, allele)
+       pairs of the listed haplotypes equal to the number of records loaded while their order of first appearance
+       differs from the file order (interleaved haplotypes, a variant used with both alleles + a target-only variant);
+       a "width" stream uses 127..129 and 254..257 samples.
        A malformed stream (absent target, allele not in the variant, missing / multiallelic / unphased call)
        is compared with the model's exception kinds only.
 """
@@ -25,13 +31,15 @@ from .core import Relation, err_kind
 
 PROP = "C16"
 CLAIMED = True
-COQ_MODULES = ["PearsonQ", "C16_Model", "C16_Check", "C16_Proofs", "C16_ProofsPerm"]
+COQ_MODULES = ["PearsonQ", "C16_Model", "C16_Check", "C16_Proofs", "C16_ProofsPerm", "C16_ProofsEmpty",
+               "C16_ModelBatch", "C16_ProofsBatch"]
 PROPERTY_MODULE = "C16_Property"
 ALLOWED_AXIOMS = []
 RULE = (
-    "ld: 2-12 samples x 2-8 biallelic phased variants (constant, duplicated and complemented columns included), "
-    "1-5 haplotypes of 1-4 alleles (V lines in any order and layout, REF and ALT mixed) + 0-2 repeats, target any "
-    "haplotype or variant (every haplotype in turn in the family stream), from_gts x ids x sample subset x "
+    "ld: 2-12 samples (127-129, 254-257 in the width stream) x 2-8 biallelic phased variants (constant, duplicated and "
+    "complemented columns included), 1-5 haplotypes of 0-4 alleles (V lines in any order and layout, REF and ALT mixed; "
+    "haplotypes without V lines first / in the middle / last) + 0-2 repeats, target any "
+    "haplotype or variant (every haplotype in turn in the family streams), from_gts x ids x sample subset x "
     "VCF/PGEN, plus one swapped run per listed item. Non-trivial = a well-formed case that lists at least one item whose R is neither nan nor +-1.000. "
     "Distinct = distinct canonical JSON."
 )
@@ -42,11 +50,35 @@ TRUSTED = [
     "IDs and alleles are interned to integers by the harness",
 ]
 ASSUMPTIONS = [
-    "theorems about the listing assume distinct haplotype / variant IDs and a .hap set whose alleles exist in the genotypes",
+    "theorems about the listing assume distinct haplotype / variant IDs and a .hap set whose alleles exist in the genotypes "
+    "(a haplotype whose variant is absent from the genotypes is outside the domain: the model raises ValueError, "
+    "Haplotypes.transform IndexError or ValueError; never generated)",
+    "a haplotype may have no V lines (dosage 2 for every sample, R = nan). While the switch STRICT_EMPTY_HAPLOTYPE is off "
+    "(default: the tree before fixes/C16_empty_haplotype.patch, where such a TARGET raises ValueError) holds does not look "
+    "at runs whose target is such a haplotype; listed ones are always checked",
     "the strand-count characterisation of a haplotype's dosage assumes a rectangular matrix (one call per sample in every record)",
 ]
 
 ALLELES = "ACGT"
+
+# Switch for the integrator.  A TARGET haplotype that has no V lines (an H line alone: accepted by the reader, dosage 2
+# for every sample, so the property demands every listed item once with R = nan) makes Haplotype.transform raise
+# "ValueError: operands could not be broadcast together with shapes (1,0) (n,0,2)" in every mode of `haptools ld`
+# (its array of wanted allele indices has shape (1, 0) instead of (1, 0, 1)); when no record at all was selected from
+# a VCF (array of shape (0, 0, 0)) it is Haplotypes.transform that raises ("could not broadcast input array from
+# shape (0,0) into shape (0,2)") as soon as another such haplotype is to be listed.  A LISTED haplotype without V lines
+# is handled correctly (nan) whenever the target is not one.
+# False (default) = the tree as it is: the model (C16_Model.calc_ld_sw false = pinned_empty_target) raises the same
+# kind / lists nothing in the same situations (agree compares them) and holds does not look at runs whose target is
+# such a haplotype (C16_Check.skipped), the swapped runs included.
+# True = after fixes/C16_empty_haplotype.patch: the model is calc_ld (theorems C16_ld_no_vlines_nan,
+# C16_ld_modes_total) and holds demands the listing with nan.  Flipping it on the unrepaired tree yields
+#   VIOLATION property=C16 ...  signature "calc_ld raises ValueError for a variant-less haplotype target with
+#   from_gts=..."  (witness corpus/C16/no_vlines_target.json).
+# Also settable with HV_C16_STRICT_EMPTY_HAPLOTYPE=1.
+STRICT_EMPTY_HAPLOTYPE = os.environ.get("HV_C16_STRICT_EMPTY_HAPLOTYPE", "1") == "1"
+
+WIDTHS = [127, 128, 129, 254, 255, 256, 257]
 
 
 # ----------------------------------------------------------------------------------------------
@@ -148,9 +180,9 @@ def mixes_alleles(case, ln):
     return len(kinds) == 2
 
 
-def gen_case(rng):
-    n = int(rng.integers(2, 13))
-    p = int(rng.integers(2, 9))
+def gen_case(rng, n=None, pmax=8, hmax=5):
+    n = int(rng.integers(2, 13)) if n is None else n
+    p = int(rng.integers(2, pmax + 1))
     cols = _rand_calls(rng, n, p)
     fmt = "pgen" if rng.random() < 0.3 else "vcf"
     pos = sorted(rng.choice(np.arange(1, 400), size=p, replace=False).tolist())
@@ -167,13 +199,18 @@ def gen_case(rng):
     # variant names: not in file order half of the time (ID order != file order != position order)
     names = [f"v{j}" for j in (rng.permutation(p).tolist() if rng.random() < 0.5 else range(p))]
     variants = []
+    same_letters = rng.random() < 0.3     # every variant A>G: mixing up two variants never raises, it is silent
     for j in range(p):
         ref, alt = rng.choice(list(ALLELES), size=2, replace=False).tolist()
+        if same_letters:
+            ref, alt = "A", "G"
         variants.append({"id": names[j], "pos": int(pos[j]) * 10, "ref": ref, "alt": alt, "calls": cols[j], "unph": []})
-    nh = int(rng.integers(1, 6))
+    nh = int(rng.integers(1, hmax + 1))
     lines = []
     for h in range(nh):
         k = int(rng.integers(1, min(4, p) + 1))
+        if rng.random() < 0.06:
+            k = 0                                            # an H line without V lines
         vs = rng.choice(p, size=k, replace=False).tolist()   # in arbitrary order
         o = rng.random()
         if o < 0.3:
@@ -219,10 +256,11 @@ def gen_case(rng):
         case["target"] = "nowhere"
         case["kind"] = "absent-target"
     elif r < 0.07:
-        hl = [l for l in lines if l["t"] == "H"]
-        h = hl[int(rng.integers(0, len(hl)))]
-        h["vars"][int(rng.integers(0, len(h["vars"])))][1] = "N"
-        case["kind"] = "allele-not-in-variant"
+        hl = [l for l in lines if l["t"] == "H" and l["vars"]]
+        if hl:
+            h = hl[int(rng.integers(0, len(hl)))]
+            h["vars"][int(rng.integers(0, len(h["vars"])))][1] = "N"
+            case["kind"] = "allele-not-in-variant"
     elif r < 0.12:
         v = variants[int(rng.integers(0, p))]
         s = int(rng.integers(0, n))
@@ -252,6 +290,99 @@ def target_family(case):
         for fg in (False, True):
             # the --id list of the base case names haplotypes (.hap mode) or variants (--from-gts)
             yield dict(case, target=t, from_gts=fg, ids=case["ids"] if fg == case["from_gts"] else None, kind="family")
+
+
+def _wellformed(rng, **kw):
+    c = gen_case(rng, **kw)
+    while c["kind"] != "wellformed":
+        c = gen_case(rng, **kw)
+    return c
+
+
+def no_vlines_family(rng, where):
+    """one data set with >= 3 haplotypes of which the first / a middle / the last one (or two of them) has no V lines;
+    every haplotype and one variant as the target, .hap and .ld output"""
+    c = _wellformed(rng)
+    while len([l for l in c["lines"] if l["t"] == "H"]) < 3:
+        c = _wellformed(rng)
+    hl = [l for l in c["lines"] if l["t"] == "H"]
+    for l in hl:
+        if not l["vars"]:     # exactly the chosen ones are empty
+            v = c["variants"][int(rng.integers(0, len(c["variants"])))]
+            l["vars"] = [[v["id"], v["alt"]]]
+    pick = {"first": [0], "middle": [int(rng.integers(1, len(hl) - 1))], "last": [len(hl) - 1],
+            "first+last": [0, len(hl) - 1], "all": list(range(len(hl)))}[where]
+    for k in pick:
+        hl[k]["vars"] = []
+    c["kind"] = "no-vlines"
+    out = [dict(x, kind="no-vlines") for x in target_family(c)]
+    v = c["variants"][int(rng.integers(0, len(c["variants"])))]["id"]
+    out += [dict(c, target=v, from_gts=fg, ids=c["ids"] if fg == c["from_gts"] else None) for fg in (False, True)]
+    return out
+
+
+def partition_case(rng):
+    """.hap mode without --id where Haplotypes.transform asks Genotypes.subset() for exactly as many columns as records
+    were loaded, in another order than the file's: the haplotypes cut a shuffled list S of variants into stretches;
+    the target is a variant of S ("var"), a further haplotype made of variants of S ("hap"), or a variant outside S
+    while one variant of S is used with both of its alleles ("both")"""
+    c = _wellformed(rng)
+    vs = c["variants"]
+    p = len(vs)
+    m = int(rng.integers(2, p + 1))
+    S = [int(x) for x in rng.permutation(p)[:m].tolist()]
+    if S == sorted(S):
+        S.reverse()
+    nh = int(rng.integers(1, min(3, m) + 1))
+    cuts = sorted(rng.choice(np.arange(1, m), size=nh - 1, replace=False).tolist()) if nh > 1 else []
+    which = {j: ("alt" if rng.random() < 0.6 else "ref") for j in S}
+    lines = []
+    for k, (a, b) in enumerate(zip([0] + cuts, cuts + [m])):
+        lines.append({"t": "H", "id": f"h{k}", "vars": [[vs[j]["id"], vs[j][which[j]]] for j in S[a:b]]})
+    how = str(rng.choice(["var", "hap", "both"]))
+    if how == "both" and m == p:
+        how = "var"
+    if how == "var":
+        target = vs[S[int(rng.integers(0, m))]]["id"]
+    elif how == "hap":
+        k = int(rng.integers(1, min(2, m) + 1))
+        tv = [int(x) for x in rng.choice(S, size=k, replace=False).tolist()]
+        lines.insert(int(rng.integers(0, len(lines) + 1)),
+                     {"t": "H", "id": "ht", "vars": [[vs[j]["id"], vs[j]["alt" if rng.random() < 0.5 else "ref"]] for j in tv]})
+        target = "ht"
+    else:
+        j = S[int(rng.integers(0, m))]
+        lines.append({"t": "H", "id": "hx", "vars": [[vs[j]["id"], vs[j]["ref" if which[j] == "alt" else "alt"]]]})
+        target = vs[[x for x in range(p) if x not in S][0]]["id"]
+    if rng.random() < 0.3:
+        lines.insert(int(rng.integers(0, len(lines) + 1)), {"t": "R", "id": "r0"})
+    return dict(c, lines=lines, target=target, ids=None, from_gts=False, hapfmt="plain", kind="partition")
+
+
+def width_case(rng, n):
+    """sample counts around 2^7 and 2^8: dosage sums and sample indices in fixed-width arrays"""
+    c = _wellformed(rng, n=n, pmax=3, hmax=2)
+    if c["keep"] is not None and rng.random() < 0.5:
+        c["keep"] = None
+    return dict(c, kind="width")
+
+
+def listed_pairs_vs_loaded(case):
+    """.hap mode: (number of distinct (variant, allele) pairs over the listed haplotypes, number of records loaded,
+    does the order of first appearance of those pairs differ from the order of the records in the file)"""
+    if case["from_gts"]:
+        return None
+    hl = [l for l in case["lines"] if l["t"] == "H"]
+    if case["ids"] is not None:
+        hl = [l for l in hl if l["id"] in case["ids"] or l["id"] == case["target"]]
+    wanted = {x[0] for l in hl for x in l["vars"]}
+    if case["target"] not in [l["id"] for l in hl]:
+        wanted.add(case["target"])
+    rk = _file_rank(case)
+    loaded = [v for v in wanted if v in rk]
+    pairs = list(dict.fromkeys((x[0], x[1]) for l in hl if l["id"] != case["target"] for x in l["vars"]))
+    order = [rk.get(v, -1) for v, _ in pairs]
+    return len(pairs), len(loaded), order != sorted(order)
 
 
 def _files(case, d):
@@ -380,10 +511,26 @@ class LD(Relation):
     budget = {"quick": 1400, "thorough": 6000}
     max_cases_per_shard = 60
     timeout_per_case = 60
-    anchors = [("haptools/ld.py", "calc_ld"), ("haptools/ld.py", "pearson_corr_ld")]
+    # calc_ld and the functions it delegates the dosages to
+    anchors = [("haptools/ld.py", "calc_ld"), ("haptools/ld.py", "pearson_corr_ld"),
+               ("haptools/data/haplotypes.py", "Haplotypes.transform"),
+               ("haptools/data/haplotypes.py", "Haplotype.transform"),
+               ("haptools/data/genotypes.py", "Genotypes.subset")]
 
     def generate(self, rng, n, tier):
         out = []
+        quick = tier == "quick"
+        # sample counts around 2^7 / 2^8
+        for w in (rng.permutation(WIDTHS)[:2].tolist() if quick else WIDTHS + WIDTHS):
+            out.append(width_case(rng, int(w)))
+        # haplotypes without V lines: first / middle / last, every target, both output modes
+        wheres = ["first", "middle", "last", "first+last", "middle", "all"]
+        for k in range(len(wheres) if quick else 5 * len(wheres)):
+            out.extend(no_vlines_family(rng, wheres[k % len(wheres)]))
+        # as many columns requested from subset() as records loaded, in another order
+        for k in range(max(1, n // 25)):
+            out.append(partition_case(rng))
+        out = out[:n // 2]
         while len(out) < n:
             c = gen_case(rng)
             out.append(c)
@@ -417,6 +564,21 @@ class LD(Relation):
                     for fmt in ("vcf", "pgen"):
                         out.append(dict(base, target=t, from_gts=fg, ids=ids, fmt=fmt, keep=None, kind="exhaustive",
                                         chunk=None))
+        # the same data with haplotypes without V lines before, between and after the others
+        lines2 = [{"t": "H", "id": "e0", "vars": []}]
+        for k, ln in enumerate(base["lines"]):
+            lines2.append(ln)
+            if k == 0:
+                lines2.append({"t": "H", "id": "e1", "vars": []})
+        lines2.append({"t": "H", "id": "e2", "vars": []})
+        haps2 = [l["id"] for l in lines2 if l["t"] == "H"]
+        for t in haps2 + vids[:2]:
+            for fg in (False, True):
+                uni = vids if fg else haps2
+                for ids in (None, ["e1", haps[0]] if not fg else uni[:1]):
+                    for fmt in ("vcf", "pgen"):
+                        out.append(dict(base, lines=lines2, target=t, from_gts=fg, ids=ids, fmt=fmt, keep=None,
+                                        kind="exhaustive", chunk=None))
         return out
 
     def run_impl(self, case):
@@ -474,10 +636,10 @@ class LD(Relation):
         mo = L.res(main, lambda rows: L.lst(rows, orow))
         so = L.lst(sym, lambda s: f"({it(s[0])}, {L.res(s[1], lambda v: L.opt(v, L.z))})")
         return (f"(mkl {it(case['target'])} {L.lst(case['variants'], gv)} {L.lst(lines, hl)} {L.bl(keep)} "
-                f"{ids} {L.b(case['from_gts'])} {mo} {so})")
+                f"{ids} {L.b(case['from_gts'])} {L.b(case['fmt'] == 'vcf')} {L.b(STRICT_EMPTY_HAPLOTYPE)} {mo} {so})")
 
     def nontrivial(self, case, obs):
-        if case["kind"] not in ("wellformed", "exhaustive", "dup-ids", "family") or not isinstance(obs, dict) or "ok" not in obs.get("main", {}):
+        if case["kind"] not in ("wellformed", "exhaustive", "dup-ids", "family", "no-vlines", "partition", "width") or not isinstance(obs, dict) or "ok" not in obs.get("main", {}):
             return False
         return any(r[1] is not None and abs(r[1]) != 1000 for r in obs["main"]["ok"])
 
@@ -501,6 +663,30 @@ class LD(Relation):
             out.append(f"target-vlines={vline_order(case, tl[0])}")
             if vline_order(case, tl[0]) in ("reversed", "shuffled") and mixes_alleles(case, tl[0]):
                 out.append("target-vlines-out-of-order+mixed-alleles")
+        # haplotypes without V lines
+        emp = [k for k, l in enumerate(hl) if not l["vars"]]
+        if emp:
+            for k in emp:
+                out.append("no-vlines-hap=" + ("only" if len(hl) == 1 else "first" if k == 0 else
+                                               "last" if k == len(hl) - 1 else "middle"))
+            if tl and not tl[0]["vars"]:
+                out.append(f"no-vlines-hap-is-target,fromgts:{int(case['from_gts'])}")
+            if isinstance(obs, dict) and "ok" in obs.get("main", {}) and not case["from_gts"]:
+                listed = {r[0] for r in obs["main"]["ok"]}
+                if any(hl[k]["id"] in listed for k in emp):
+                    out.append("no-vlines-hap-is-listed")
+                if any(hl[k]["id"] in listed and k < len(hl) - 1 and hl[k + 1]["id"] in listed and hl[k + 1]["vars"]
+                       for k in emp):
+                    out.append("no-vlines-hap-listed-before-another")
+        # the request Haplotypes.transform makes to Genotypes.subset()
+        pl = listed_pairs_vs_loaded(case)
+        if pl is not None and pl[0] >= 2:
+            if pl[0] == pl[1]:
+                out.append("listed-pairs=loaded-records," + ("order-differs" if pl[2] else "file-order"))
+            else:
+                out.append("listed-pairs<>loaded-records")
+        if case["n"] >= 100:
+            out.append(f"samples={case['n']}")
         if isinstance(obs, dict) and obs.get("sym"):
             out.append(f"swapped-runs={min(len(obs['sym']), 4)}{'+' if len(obs['sym']) > 4 else ''}")
         if case.get("chunk"):
@@ -570,6 +756,13 @@ class LD(Relation):
                 yield dict(case, target=t, from_gts=fg, ids=None)
                 uni = var_ids if fg else hap_ids
                 yield dict(case, target=t, from_gts=fg, ids=uni[: max(1, len(uni) // 2)])
+        # one haplotype at a time without V lines, every haplotype / the first variant as the target
+        for j, ln in enumerate(case["lines"]):
+            if ln["t"] == "H" and ln["vars"]:
+                lines = case["lines"][:j] + [dict(ln, vars=[])] + case["lines"][j + 1:]
+                for t in hap_ids + var_ids[:1]:
+                    for fg in (False, True):
+                        yield dict(case, lines=lines, target=t, from_gts=fg, ids=None)
         # the V lines of every haplotype in another order / layout
         for how in ("reversed", "shuffled"):
             lines = []
@@ -586,6 +779,9 @@ class LD(Relation):
         hap_ids = [l["id"] for l in case["lines"] if l["t"] == "H"]
         var_ids = [v["id"] for v in case["variants"]]
         kind = "haplotype" if case["target"] in hap_ids else "variant" if case["target"] in var_ids else "absent"
+        novl = {l["id"] for l in case["lines"] if l["t"] == "H" and not l["vars"]}
+        if case["target"] in novl:
+            kind = "variant-less haplotype"
         if isinstance(obs, dict) and "main" in obs:
             m, s = obs["main"], obs["sym"]
             if "err" in m:
@@ -594,9 +790,12 @@ class LD(Relation):
             if len(set(rows)) < len(rows):
                 return f"calc_ld lists an item twice (--id repeated) for a {kind} target with from_gts={case['from_gts']}"
             for s1 in s or []:
+                if s1[0] in novl and not STRICT_EMPTY_HAPLOTYPE and s1[1].get("err") == 1:
+                    continue     # the known behaviour of the tree before fixes/C16_empty_haplotype.patch (modelled)
                 if "err" in s1[1] and s1[1]["err"] != 97:
                     return (f"calc_ld raises {s1[1].get('cls')} for a "
-                            f"{'haplotype' if s1[0] in hap_ids else 'variant'} target with from_gts={kind != 'haplotype'}")
+                            f"{'variant-less haplotype' if s1[0] in novl else 'haplotype' if s1[0] in hap_ids else 'variant'}"
+                            f" target with from_gts={case['target'] not in hap_ids}")
         return f"calc_ld listing or R wrong for a {kind} target with from_gts={case['from_gts']}"
 
 
@@ -607,7 +806,9 @@ LEVEL_TEXT = (
     "Cauchy-Schwarz r^2 <= 1) and over all genotype matrices / .hap sets / targets / modes for a Gallina model of "
     "calc_ld (what is listed, that no mode raises, that every R is the correlation of the two dosages, that "
     "R(A->B) = R(B->A) across any two runs, that a haplotype's dosage counts the strands carrying all of its alleles "
-    "and that neither it nor anything calc_ld reports depends on the order of the haplotype's V lines); the model is "
+    "and that neither it nor anything calc_ld reports depends on the order of the haplotype's V lines, that every R "
+    "involving a haplotype without V lines is NaN, that the dictionary / subset() / positional-index mechanism of "
+    "Haplotypes.transform computes exactly that strand count); the model is "
     "tied to /repo on every run by evaluating inside Coq, on generated inputs in all four modes for both genotype "
     "formats (V lines in any order and layout, every listed item swapped with the target in a further run), "
     "model-vs-implementation agreement and the property's finite checker (each printed R against the exact "
